@@ -19,12 +19,20 @@ def rankSort (U : Universe) (l : List Nat) : List Nat := l.foldr (fun x acc => i
 -- goes before the first element whose rank is ≥ its own, so equal keys keep input order (stable).
 
 /-- `if let Some(pos) = sorted.position(favored) { sorted[0..=pos].rotate_right(1) }` -/
+def splitAtFirst (f : Nat) : List Nat → Option (List Nat × List Nat)
+  | [] => none
+  | x :: xs =>
+    if x == f then some ([], xs)
+    else match splitAtFirst f xs with
+      | some (pre, post) => some (x :: pre, post)
+      | none => none
+
 def favoredFirst (fav : Option Nat) (l : List Nat) : List Nat :=
   match fav with
   | some f =>
-    match l.span (· != f) with
-    | (pre, _ :: post) => f :: pre ++ post
-    | (_, []) => l
+    match splitAtFirst f l with
+    | some (pre, post) => f :: pre ++ post
+    | none => l
   | none => l
 
 def pkgFavored (U : Universe) (vs : Nat) : Option Nat :=
